@@ -481,7 +481,11 @@ func c12(r *core.Report) {
 					}
 				}
 				if vexpr == nil || core.IsNil(info, vexpr) {
-					r.Trivial(key, p.Pos(el.lit.Pos()), "no Value")
+					if valueObj == nil {
+						r.Trivial(key, p.Pos(el.lit.Pos()), "no Value (the function has no value)")
+						continue
+					}
+					r.Check(litHasKey(info, fd.Body, el.lit, "Value"), key, p.Pos(el.lit.Pos()), "Value assigned to the error", "the SchemaError ("+el.field+") built in "+short+" quotes no value although the function is checking one: the error's location holds a value and the error says nil")
 					continue
 				}
 				rs := ff.Roots(vexpr, false)
@@ -496,6 +500,45 @@ func c12(r *core.Report) {
 				}
 				r.Check(onlyValue, key, p.Pos(el.lit.Pos()), "Value derives from the value parameter", "SchemaError.Value ("+core.ExprStr(vexpr)+") does not derive from this function's value parameter")
 			}
+		}
+	})
+
+	r.RunRule("C12.foreignvalue", "an error built where no value is at hand gets the value where it is used: in the visitors, the error returned by compilePattern (a SchemaError about the schema's pattern) has its Value set from the visitor's value parameter before it is returned or collected", 1, func() {
+		n := 0
+		for _, vn := range c12Visitors {
+			fd := p.DeclOf("openapi3", vn)
+			valueObj := core.ParamObj(info, fd, "value")
+			short := strings.TrimPrefix(vn, "Schema.")
+			for i, call := range callsTo(info, fd.Body, "compilePattern") {
+				n++
+				key := fmt.Sprintf("foreignvalue:%s/compilePattern#%d", short, i+1)
+				// the innermost if statement whose init or condition holds the call
+				var body *ast.BlockStmt
+				for _, nd := range core.PathTo(fd.Body, call) {
+					if ifs, ok := nd.(*ast.IfStmt); ok {
+						body = ifs.Body
+					}
+				}
+				ok := false
+				if body != nil && valueObj != nil {
+					ast.Inspect(body, func(nd ast.Node) bool {
+						if as, isAs := nd.(*ast.AssignStmt); isAs && len(as.Lhs) == 1 && len(as.Rhs) == 1 {
+							if sel, isSel := ast.Unparen(as.Lhs[0]).(*ast.SelectorExpr); isSel && sel.Sel.Name == "Value" {
+								if nt := core.NamedOf(info.TypeOf(sel.X)); nt != nil && nt.Obj().Name() == "SchemaError" {
+									if id, isID := ast.Unparen(as.Rhs[0]).(*ast.Ident); isID && info.ObjectOf(id) == valueObj {
+										ok = true
+									}
+								}
+							}
+						}
+						return true
+					})
+				}
+				r.Check(ok, key, p.Pos(call.Pos()), "the pattern error gets the visitor's value", "the error of compilePattern leaves "+short+" as it was built, without a value: the error points at a string and quotes nil")
+			}
+		}
+		if n == 0 {
+			core.Fail("no compilePattern call in the visitors")
 		}
 	})
 }
